@@ -71,24 +71,42 @@ class IO:
 
 
 class _File:
+    """a buffered text file: what write() is given reaches the file system when the file is closed (or, at a crash inside write(), a
+    prefix of it does: a torn write). A crash is the death of the process: the buffer is lost, nothing is flushed on the way out."""
     def __init__(self, f, io, base):
         self.f, self.io, self.base = f, io, base
+        self.buf = []
 
     def write(self, data):
         if self.io.tick(('write', self.base, len(data))):
             n = self.io.torn if self.io.torn is not None else 0
-            self.f.write(data[:n])
+            self.f.write(''.join(self.buf) + data[:n])
             self.f.flush()
+            self.buf = []
             raise Crash()
-        return self.f.write(data)
+        self.buf.append(data)
+        return len(data)
+
+    def flush(self):
+        self.f.write(''.join(self.buf))
+        self.buf = []
+        self.f.flush()
 
     def __enter__(self):
         return self
 
     def __exit__(self, *exc):
-        self.f.close()
         if exc[0] is None and self.io.tick(('close', self.base)):
+            self.buf = []                     # the process dies before the buffer is written
+            self.f.close()
             raise Crash()
+        if exc[0] is not None and issubclass(exc[0], Crash):
+            self.buf = []                     # a crash inside the with block: nothing more is written
+            self.f.close()
+            return False
+        self.f.write(''.join(self.buf))
+        self.buf = []
+        self.f.close()
         return False
 
 
@@ -678,16 +696,17 @@ def mid_states(cm, d, base, clock, op, submitted, n, loop):
     install(cm, io, ck)
     c = make_corr(cm, work, ck)
     states = []
-    real_replace = io.replace
+    # a snapshot after every COMPLETED save of this store (the file closed and renamed), not at the rename itself: a rename of a file
+    # whose content is still in the buffer is not a legitimate intermediate state
+    pd = getattr(c, n)
+    orig_save = pd._save
 
-    def replace(src, dst):
-        real_replace(src, dst)
-        if os.path.basename(dst) == 'c' + n + '.json':
-            io_saved = cm.open
-            states.append(canon(make_corr(cm, work, ck).__dict__[n]._data))
-            cm.open = io_saved
-    io.replace = replace
-    cm.os = OsProxy(io)
+    def save_and_snapshot():
+        orig_save()
+        io_saved = cm.open
+        states.append(canon(make_corr(cm, work, ck).__dict__[n]._data))
+        cm.open = io_saved
+    pd._save = save_and_snapshot
     try:
         loop.run_until_complete(apply_op(c, ck, op, dict(submitted)))
     except Exception:  # noqa: BLE001
